@@ -1,6 +1,6 @@
 (* Correspondence suites for C01 (and shared by C02/C03): suite name -> arguments ->
    observation text.  Rendering helpers are reused by DrvC02.v. *)
-Require Import Bytes Utf8 AMap WireOut GoUpper Tags Event.
+Require Import Bytes Utf8 AMap WireOut GoUpper Tags Event Grammar LineGrammar.
 
 Definition c01_arg (args : list str) (i : nat) : str := nth i args [].
 Definition c01_byte (s : str) (i : nat) : N := nth i s 0.
@@ -19,6 +19,7 @@ Definition lit_rt : str := Eval vm_compute in bs "|rt=".
 Definition lit_err : str := Eval vm_compute in bs "err".
 Definition lit_ok : str := Eval vm_compute in bs "ok".
 Definition lit_time : str := Eval vm_compute in bs "|time=".
+Definition lit_gl : str := Eval vm_compute in bs "|gl=".
 
 (* a command is shown in hex when it is pure ASCII, else projected to "~" (GoUpper.v) *)
 Definition show_cmd (c : str) : str := if is_ascii c then hex c else [126].
@@ -127,7 +128,8 @@ Definition run_tags (args : list str) : str :=
     ++ join comma (show_gets t ops).
 
 Definition run_C01 (suite : str) (args : list str) : option str :=
-  if streqb suite (bs "codec.parse") then Some (show_parse (parse_event (c01_arg args 0)))
+  if streqb suite (bs "codec.parse")
+  then Some (show_parse (parse_event (c01_arg args 0)) ++ lit_gl ++ show_bool (wf_lineb (c01_arg args 0)))
   else if streqb suite (bs "codec.encode") then Some (run_encode args)
   else if streqb suite (bs "codec.source") then Some (run_source args)
   else if streqb suite (bs "codec.tags") then Some (run_tags args)
